@@ -44,6 +44,12 @@ pub struct FCase {
     /// segments per data chunk of the entity's (non-contiguous) Data type
     #[serde(default)]
     pub segments: u8,
+    /// the entity streams report a size_hint that counts data chunks only
+    #[serde(default)]
+    pub counting_hint: bool,
+    /// after an injected error the entity stream keeps failing instead of ending
+    #[serde(default)]
+    pub unfused_errors: bool,
 }
 
 impl FCase {
@@ -87,6 +93,8 @@ impl FCase {
                 faults: if with_faults { self.faults.clone() } else { vec![] },
                 tail: self.tail.clone(),
                 segments: self.segments,
+                counting_hint: self.counting_hint,
+                unfused_errors: self.unfused_errors,
             },
             req,
         )
@@ -349,8 +357,14 @@ pub fn enumerate(len: u32, max_chunks: usize, extra_polls: &[usize], mut f: impl
                         }
                         for &extra in extra_polls {
                             // contiguous chunks, and chunks handed over in two segments
-                            for segments in [1u8, 2] {
-                                if segments == 2 && (filler.is_some() || !tail.is_empty()) {
+                            for (segments, counting_hint, unfused_errors) in [(1u8, false, false), (2, false, false), (1, true, false), (1, false, true)] {
+                                if (segments == 2 || counting_hint) && filler.is_some() {
+                                    continue;
+                                }
+                                if segments == 2 && !tail.is_empty() {
+                                    continue;
+                                }
+                                if unfused_errors && !matches!(fault, Some(Fault { kind: FaultKind::Error, .. })) {
                                     continue;
                                 }
                                 f(FCase {
@@ -361,6 +375,8 @@ pub fn enumerate(len: u32, max_chunks: usize, extra_polls: &[usize], mut f: impl
                                     tail: tail.clone(),
                                     extra_polls: extra,
                                     segments,
+                                    counting_hint,
+                                    unfused_errors,
                                 });
                             }
                         }
@@ -383,8 +399,10 @@ pub fn random_strategy() -> BoxedStrategy<FCase> {
         0usize..=4,
         proptest::collection::vec(prop_oneof![Just(PStep::Pending), Just(PStep::Empty)], 0..3),
         0u8..4,
+        proptest::bool::weighted(0.3),
+        proptest::bool::weighted(0.3),
     )
-        .prop_map(|(chunks, shape, filler, faults, extra_polls, tail, segments)| {
+        .prop_map(|(chunks, shape, filler, faults, extra_polls, tail, segments, counting_hint, unfused_errors)| {
             let parts = match shape {
                 Shape::Multi(n) => n as u32,
                 _ => 1,
@@ -408,6 +426,8 @@ pub fn random_strategy() -> BoxedStrategy<FCase> {
                 faults: fs,
                 tail,
                 segments,
+                counting_hint,
+                unfused_errors,
                 extra_polls,
             }
         })
